@@ -231,6 +231,27 @@ def observables(d, mean, Cint, cfg, fails):
         fails.check_close("to_data_independent_dist", di.covariance_matrix, blk, 1e-10, 1e-12)
         fails.check_close("to_data_independent_dist", di.mean, mean, 1e-12, 0)
         ops += 1
+    # arithmetic inherited from MultivariateNormal: the result is the joint distribution of the transformed variable, whatever the layout
+    I = torch.eye(n * t, dtype=F64)
+    for name, fn, wm_, wc_ in [("mul", lambda: d * 2.0, mean * 2.0, Cint * 4.0), ("div", lambda: d / 2.0, mean / 2.0, Cint / 4.0),
+                               ("add-scalar", lambda: d + 1.0, mean + 1.0, Cint), ("add-dist", lambda: d + d, mean * 2.0, Cint * 2.0),
+                               ("sum", lambda: sum([d, d]), mean * 2.0, Cint * 2.0), ("add_jitter", lambda: d.add_jitter(0.3), mean, Cint + 0.3 * I)]:
+        with fails.guard("arith-" + name):
+            r = fn()
+            rm, rc, _ = joint_of_result(r)
+            fails.check_close("arith-" + name, rm, wm_, 1e-12, 1e-12, "mean")
+            fails.check_close("arith-" + name, rc, wc_.expand(rc.shape), 1e-10, 1e-12, "joint covariance (point, task order)")
+            fails.check_close("arith-" + name, r.variance, wc_.diagonal(dim1=-1, dim2=-2).reshape(*bs, n, t).expand(r.variance.shape), 1e-10, 1e-12, "variance")
+            ops += 1
+    with fails.guard("arith-add-other-layout"):
+        # the same joint distribution held in the OTHER layout, added to d
+        Cother = Cint if not d._interleaved else Cint.reshape(*bs, n, t, n, t).transpose(-4, -3).transpose(-2, -1).reshape(*bs, n * t, n * t)
+        d2 = MT(mean, Cother, interleaved=not d._interleaved)
+        for name, r in (("d + other", d + d2), ("other + d", d2 + d)):
+            rm, rc, _ = joint_of_result(r)
+            fails.check_close("arith-add-other-layout", rm, mean * 2.0, 1e-12, 1e-12, name + ": mean")
+            fails.check_close("arith-add-other-layout", rc, (Cint * 2.0).expand(rc.shape), 1e-10, 1e-12, name + ": joint covariance")
+        ops += 2
     with fails.guard("expand"):
         e = d.expand(torch.Size((3,) + bs))
         em, ec, _ = joint_of_result(e)
